@@ -145,6 +145,7 @@ def run(ck):
               f'AssignedMsm::in_circuit_as_public_input encodes {sorted(fa)} but constrain_as_public_input constrains {sorted(fc)}', hirq.fn_loc(ca))
     r3_counting(ck, w)
     r4_canonical(ck, w)
+    r5_dont_care(ck, w)
     from . import c03
     c03.pi_count_exact(ck, w, 'C08.R3')
 
@@ -219,3 +220,50 @@ def r4_canonical(ck, w):
                   f'{r["fn"]} no longer reaches {g} on every success path: the value is exposed without the canonicalisation / counting step, so the cells bound to the '
                   f'instance column need not be the off-circuit encoding of the value', reach.loc(b))
     ck.floor('C08.R4', 'exposure must-call pairs', n, 20)
+
+
+def r5_dont_care(ck, w):
+    """components a flag declares meaningless must not be exposed unmasked"""
+    from ..engines import valflow
+    ck.rule('C08.R5', 'flag-guarded don\'t-care components: AssignedForeignPoint carries (x, y, is_id) and, when is_id is set, x and y are unconstrained (assign skips the '
+                      'on-curve check, add/negate constrain only the flag).  Its public-input encoding must therefore mask BOTH coordinates with the flag (a '
+                      'select / conditional zero taking is_id together with the x-derived and with the y-derived cells); merely adding B*is_id to one limb leaves '
+                      'every (x, y) acceptable for the identity, i.e. the circuit is satisfied by vectors other than the encoding of the identity.')
+    fs = [f for f in w.all_fns(['circuits']) if f['name'] == 'as_public_input' and f['file'].endswith('ecc/foreign/ecc_chip.rs')
+          and any(b['n'] == 'layouter' for p in f['params'] for b in pat_bindings(p))]
+    if not fs:
+        ck.bad('C08.R5', 'AssignedForeignPoint::as_public_input:anchor', 'as_public_input of the foreign curve chip not found (anchor)')
+        return
+    f = fs[0]
+    pl = [b for p in f['params'] for b in pat_bindings(p) if b['n'] not in ('self', 'layouter')]
+    if not pl:
+        ck.bad('C08.R5', 'AssignedForeignPoint::as_public_input:anchor:param', 'point parameter not found (anchor)')
+        return
+    pn = pl[0]['n']
+    vf = valflow.ValFlow(f, sources=[], field_sources=[pl[0]['i']])
+    met = {'x': False, 'y': False}
+    in_iter = set()
+    for n in walk(f['body']):
+        if n.get('k') == 'for':
+            in_iter |= {id(x) for x in walk(n['body'])}
+        if n.get('k') == 'closure':
+            in_iter |= {id(x) for x in walk(n['body'])}
+    for node, per_arg in vf.sites.values():
+        args = ([node['recv']] if 'recv' in node else []) + list(node.get('args', []))
+        deps = set()
+        for d in per_arg:
+            deps |= set(d or ())
+        if f'{pn}.is_id' not in deps:
+            continue
+        # a mask acts on a whole coordinate (an AssignedField argument) or on every limb (a call inside an iteration over the limbs);
+        # a single call on one limb outside any iteration (the `+ B * is_id` on the first limb) is not a mask
+        whole = any('AssignedField' in (peel(a).get('t') or '') for a in args)
+        if not (whole or id(node) in in_iter):
+            continue
+        for c in ('x', 'y'):
+            if f'{pn}.{c}' in deps:
+                met[c] = True
+    ok = met['x'] and met['y']
+    ck.record('C08.R5', 'AssignedForeignPoint::as_public_input:masks-coordinates', ok, 'both coordinates meet the identity flag in a constraint',
+              f'ForeignEccChip::as_public_input exposes the coordinate cells of a point without masking them by is_id (x meets the flag: {met["x"]}, y meets the '
+              f'flag: {met["y"]}): for the identity the prover chooses x and y freely, so many public-input vectors are accepted for one value', hirq.fn_loc(f))
